@@ -12,7 +12,7 @@ Definition terminal_aops (t : terminal) : list aop :=
   match t with
   | TRedirect loc => [AWriteRedirect loc false]
   | TProcess pk pid path => process_aops pk pid path
-  | TRefused _ => [AWriteError 403 None]
+  | TRefused m => refuse_aops m
   | TUnknown => no_oracle
   end.
 
@@ -22,7 +22,7 @@ Definition render (o : list (Z * bool) * terminal) : list aop :=
 Lemma chain_consult after mws :
   chain after mws =
   map note_mw (fst (consult mws)) ++
-  (match snd (consult mws) with Some _ => [AWriteError 403 None] | None => after end).
+  (match snd (consult mws) with Some m => refuse_aops m | None => after end).
 Proof.
   induction mws as [|[id acc] m IH]; [reflexivity|].
   cbn [chain consult]. destruct acc.
